@@ -342,8 +342,26 @@ def rule_removal_cleans_the_tables(ctx):
                 out |= expand_params(prog, e, 2) if prog.enclosing_fn(y) is not rm else {e}
             return out
 
+        def _is_removed_arg(t):
+            """the argument looked up by the label handed to remove_argument (through `?`, unwrap, with_context)"""
+            for _ in range(6):
+                if not isinstance(t, tuple):
+                    return False
+                if _is_call(t, r"get_argument$|get_label$"):
+                    return True
+                if t[0] == "field" and t[2] == "0":
+                    t = t[1]
+                elif t[0] == "call" and re.search(r"Try::branch$|with_context$|::context$|unwrap$|expect$", t[1]) and t[2]:
+                    t = t[2][0]
+                else:
+                    return False
+            return False
+
+        def is_removed_id(e):
+            return _is_call(e, r"Label::id$", 1) and _is_removed_arg(e[2][0])
+
         def by_removed_id(y, op):
-            return any(_is_call(t, r"Label::id$", 1) and any(_is_call(z, r"get_argument$|get_label$") for z in subterms(t)) for e in trees_of(y, op) for t in subterms(e))
+            return any(is_removed_id(e) for e in trees_of(y, op))
 
         # clearing an entry: `table[i] = None` or `table[i].take()`
         class _Clear:
@@ -366,6 +384,15 @@ def rule_removal_cleans_the_tables(ctx):
                                 if o.kind == "call" and callee_decl(o.data) == "core::ops::index::IndexMut::index_mut":
                                     clears.append(_Clear(y, s, o.site.node["args"][0], o.site.node["args"][1]))
 
+        # the id->variable table: the one the encoder's literal of an argument is read from
+        var_tables = set()
+        for b0 in prog.lib_bodies():
+            if b0.kind != "closure" and b0.impl and b0.impl.get("self_adt") == p and b0.ret_ty.endswith("sat::sat_solver::Literal"):
+                for e in prov(prog, b0, {"l": 0, "p": []}):
+                    for t in subterms(e):
+                        if _is_call(t, r"Index::index$", 2) and t[2][0][0] == "param" and t[2][0][3] and t[2][0][3][-1] in opt_tables:
+                            var_tables.add(t[2][0][3][-1])
+        var_tables = var_tables or set(opt_tables)
         # (1) the kind table
         anchor = rm.id + "|kind"
         n += 1
@@ -377,8 +404,12 @@ def rule_removal_cleans_the_tables(ctx):
         elif not resets:
             r.violation(anchor, "kind-not-reset", "remove_argument leaves the removed variable registered as an argument in the variable->argument table: a model is decoded with an argument that no longer exists", rm.loc())
         else:
+            def _vt(y, st):
+                return any(_is_call(t, r"Index::index$|IndexMut::index_mut$", 2) and t[2][0][0] == "param" and t[2][0][3] and t[2][0][3][-1] in var_tables and is_removed_id(t[2][1]) for e in trees_of(y, st.idx) for t in subterms(e))
+
+            resets.sort(key=lambda ys: not _vt(*ys))
             y, st = resets[0]
-            via_table = any(_is_call(t, r"Index::index$|IndexMut::index_mut$|Option::take$", None) and any(z[0] == "param" and z[3] and z[3][0] in opt_tables for z in subterms(t) if isinstance(z, tuple)) for e in trees_of(y, st.idx) for t in subterms(e))
+            via_table = any(_is_call(t, r"Index::index$|IndexMut::index_mut$", 2) and t[2][0][0] == "param" and t[2][0][3] and t[2][0][3][-1] in var_tables and is_removed_id(t[2][1]) for e in trees_of(y, st.idx) for t in subterms(e))
             r.check(via_table, anchor, "kind-reset-index", "the entry overwritten is that of the removed argument's variable", "the variable->argument entry overwritten on removal is not the one of the removed argument's variable (%s)" % "; ".join(show(e)[:60] for e in prov(prog, y, st.idx)), st.loc())
             if adds and y is rm:
                 a = adds[0]
@@ -401,6 +432,7 @@ def rule_removal_cleans_the_tables(ctx):
             n += 1
             anchor = "%s|table:%s" % (rm.id, t)
             cl = [(c.y, c) for c in clears if t in field_of(c.y, c.recv)]
+            cl.sort(key=lambda yc: not by_removed_id(yc[0], yc[1].idx))
             if not cl:
                 r.violation(anchor, "entry-not-cleared", "remove_argument does not clear the removed argument's entry of `%s`: the entry outlives the argument (and is found again when the id or the label is looked at later)" % t, rm.loc())
                 continue
